@@ -248,6 +248,7 @@ type ScriptOpts struct {
 	Only      map[string]bool
 	Exclude   map[string]bool
 	EndAccept bool
+	NativeVi  bool // do not run vi-* commands through harness binds outside vi command mode
 }
 
 func tok(b string, cmd string) wire.Token { return wire.Token{B: wire.Bytes(b), Cmd: cmd} }
@@ -307,10 +308,14 @@ func (g *Gen) editScriptTracker(t tracker, o ScriptOpts) []wire.Token {
 		case r < 30+o.RawPct:
 			out = append(out, g.rawToken())
 		case r < 38+o.RawPct:
-			// numeric argument
+			// numeric argument (never two groups in a row: their digits would concatenate
+			// into counts of millions, which is a legitimately slow request, not a spin)
+			if n := len(out); n > 0 && (out[n-1].Cmd == "digit-argument" || out[n-1].Cmd == "vi-arg-digit") {
+				continue
+			}
 			d := fmt.Sprint(g.Range(0, 12))
 			if g.P(10) {
-				d = fmt.Sprint(g.Range(13, 2000))
+				d = fmt.Sprint(g.Range(13, 999))
 			}
 			neg := g.P(10)
 			for i, c := range d {
@@ -353,6 +358,9 @@ func (g *Gen) editScriptTracker(t tracker, o ScriptOpts) []wire.Token {
 			seq := cat.SeqFor(g, km, cmd)
 			if seq == "" {
 				continue
+			}
+			if o.NativeVi && strings.HasPrefix(seq, "\x1c") && km != "vi-command" && (strings.HasPrefix(cmd, "vi-") || strings.HasPrefix(cmd, "select-")) {
+				continue // vi operators/motions are only reached through their own keymaps
 			}
 			out = append(out, tok(seq, cmd))
 			t.after(cmd)
